@@ -195,6 +195,8 @@ class Run:
         self.quiet = 0        # >0: safety failures abandon the path instead of being reported (covered by another obligation)
         self.nd_base = None   # index into pc where the outermost symbolic loop started (guard mode)
         self.trace = []
+        self.contracts = {}   # qualified name -> host callable(interp, *args): callee replaced by its contract
+        self.registry = {}    # facts recorded by library models (cumsum arrays, searchsorted functions, ...)
 
     # ---- scenario API
     def fresh(self, base, sort="int"):
@@ -346,6 +348,9 @@ class Interp:
 
     # ---------- function calls
     def call_func(self, f: Func, args, kwargs):
+        if f.qual and f.qual in self.run.contracts:
+            a = ([f.selfobj] if f.selfobj is not None else []) + list(args)
+            return self.run.contracts[f.qual](self, *a, **kwargs)
         it = self if f.mod == self.mod else Interp(self.run, f.mod)
         node = f.node
         if isinstance(node, ast.Lambda):
@@ -550,7 +555,12 @@ class Interp:
                 raise Unsupported("attribute store on " + type(o).__name__)
         elif isinstance(t, ast.Subscript):
             o = self.eval(t.value, env)
-            idx = self.eval(t.slice, env)
+            if isinstance(t.slice, ast.Slice):
+                sl = t.slice
+                idx = slice(self.eval(sl.lower, env) if sl.lower else None, self.eval(sl.upper, env) if sl.upper else None,
+                            self.eval(sl.step, env) if sl.step else None)
+            else:
+                idx = self.eval(t.slice, env)
             self.store(o, idx, v)
         else:
             raise Unsupported(f"assignment target {type(t).__name__}")
@@ -644,7 +654,7 @@ class Interp:
                 cur = self.lookup(n, env)
             except PyRaise:
                 pass
-            if isinstance(cur, NdStore):
+            if isinstance(cur, NdStore) or (isinstance(cur, SymSeq) and getattr(cur, "stored", False)):
                 continue
             if n in written or isinstance(cur, (list, dict, Opaque)):
                 new = Opaque(f"{tag}:{n}", deps)
@@ -949,6 +959,10 @@ class Interp:
                 self.run.fail("safe.key", f"KeyError {idx!r}", witness_class="key")
                 raise PyRaise("KeyError", str(idx))
             return o[idx]
+        if isinstance(o, SymSeq) and isinstance(idx, SymSeq):
+            out = SymSeq(idx.length, lambda i: self.subscript(o, idx.at(i)), "array")
+            out.tail = getattr(o, "tail", ())
+            return out
         if isinstance(o, SymSeq):
             if isinstance(idx, slice):
                 raise Unsupported("slice of symbolic sequence")
